@@ -215,8 +215,6 @@ def class0_column(rnd, size):
     order = names(n)
     lefts = _partition(rnd, order[1:40], 7, 3)
     rights = _partition(rnd, order[40:80], 6, 3)
-    listed = {g for r in rights for g in r}
-    others = [g for g in order[1:] if g not in listed]
     st, class0 = [], []
     for i, l in enumerate(lefts):
         for r in rights:
@@ -226,7 +224,11 @@ def class0_column(rnd, size):
             st.append((l, rights[0], (0, 0, _nz(rnd), 0), None))
         if i % 3 != 2:
             class0.append((l, (0, 0, _nz(rnd), 0)))
-    # the rule-level meaning: class 0 of ClassDef2 is the set of all glyphs not listed there
+    # the rule-level meaning: class 0 of ClassDef2 is the set of all glyphs not listed there -- and ClassDef2 lists
+    # only the right-hand classes that occur in some pair (a right class that no left class happened to pair with
+    # is not in the table at all, so its glyphs fall into class 0 too)
+    listed = {g for _l, r, _v1, _v2 in st for g in r}
+    others = [g for g in order[1:] if g not in listed]
     rules = list(st) + [(l, others, v0, None) for l, v0 in class0]
     lk = {"kind": "ppos", "flag": {}, "pairs": [], "classes": [rules], "_build": {"classes": [st], "class0": class0}}
     # a second lookup (plain class kerning) so that there is something to compact as well
